@@ -57,11 +57,11 @@ func (x vIn) val() zed.Value {
 func vSymPayload(name string, t int) vIn {
 	x := vIn{t: t}
 	if t == vtFloat64 {
-		x.f = verif.Float64(name)
+		x.f = verif.Float64(name + ".f")
 		// NaN makes min/max order dependent by definition; outside.
 		verif.Assume(x.f == x.f)
 	} else {
-		x.bits = verif.Uint64(name)
+		x.bits = verif.Uint64(name + ".u")
 	}
 	return x
 }
@@ -231,4 +231,190 @@ func VerifH_C10_O1b_fold2() {
 // verif:tier thorough
 func VerifH_C10_O1b_fold3() {
 	vRunFold(3)
+}
+
+// ---------------------------------------------------------------------------
+// O1: partial results compose
+
+const (
+	vkInt = iota
+	vkUint
+	vkFloat
+	vkBool
+	vkNullInt
+	vkNullUint
+	vkNullFloat
+	vkNullBool
+	vkNull
+)
+
+var vComposeFuncs = []string{"count", "sum", "min", "max", "avg", "and", "or"}
+
+// the input kinds offered to each run ("menu")
+var (
+	vMenuInts   = []int{vkInt, vkUint, vkNullInt, vkNullUint, vkNull, vkBool}
+	vMenuFloats = []int{vkFloat, vkNullFloat, vkNull, vkBool}
+	vMenuBools  = []int{vkBool, vkNullBool, vkNull, vkInt}
+)
+
+type vComposeIn struct {
+	val              zed.Value
+	signed, unsigned bool
+	nan, inf         bool
+}
+
+func vSymKind(name string, kind int, small bool) vComposeIn {
+	switch kind {
+	case vkInt:
+		var v int64
+		if small {
+			// float64 accumulation (avg): concrete payloads, see verif:bounds
+			v = []int64{0, 1, -7, 1 << 20}[verif.Choose(name+".ci", 4)]
+		} else {
+			v = verif.Int64(name + ".i")
+		}
+		return vComposeIn{val: zed.NewInt64(v), signed: true}
+	case vkUint:
+		var v uint64
+		if small {
+			v = []uint64{0, 3, 1 << 20}[verif.Choose(name+".cu", 3)]
+		} else {
+			v = verif.Uint64(name + ".u")
+		}
+		return vComposeIn{val: zed.NewUint64(v), unsigned: true}
+	case vkFloat:
+		v := verif.Float64(name + ".f")
+		return vComposeIn{val: zed.NewFloat64(v), nan: v != v, inf: v > math.MaxFloat64 || v < -math.MaxFloat64}
+	case vkBool:
+		return vComposeIn{val: zed.NewBool(verif.Bool(name + ".b"))}
+	case vkNullInt:
+		return vComposeIn{val: zed.NullInt64, signed: true}
+	case vkNullUint:
+		return vComposeIn{val: zed.NullUint64, unsigned: true}
+	case vkNullFloat:
+		return vComposeIn{val: zed.NullFloat64}
+	case vkNullBool:
+		return vComposeIn{val: zed.NullBool}
+	}
+	return vComposeIn{val: zed.Null}
+}
+
+// vSameValue: same type and same value (bit pattern of the native
+// representation; any NaN equals any NaN).
+func vSameValue(a, b zed.Value) bool {
+	if a.Type() != b.Type() {
+		return false
+	}
+	if a.IsNull() || b.IsNull() {
+		return a.IsNull() && b.IsNull()
+	}
+	id := a.Type().ID()
+	switch {
+	case zed.IsFloat(id):
+		x, y := a.Float(), b.Float()
+		return math.Float64bits(x) == math.Float64bits(y) || (x != x && y != y)
+	case zed.IsUnsigned(id):
+		return a.Uint() == b.Uint()
+	case zed.IsSigned(id):
+		return a.Int() == b.Int()
+	case id == zed.IDBool:
+		return a.Bool() == b.Bool()
+	}
+	return false
+}
+
+func vRunCompose(n int, funcs []string, floats bool) {
+	name := funcs[verif.Choose("func", len(funcs))]
+	menu := vMenuInts
+	switch name {
+	case "min", "max":
+		if floats {
+			menu = vMenuFloats
+		}
+	case "and", "or", "count":
+		menu = vMenuBools
+	}
+	pat, err := NewPattern(name, name != "count")
+	if err != nil {
+		panic(err)
+	}
+	zctx := zed.NewContext()
+	split := verif.Choose("split", n+1)
+	D, A, B, C := pat(), pat(), pat(), pat()
+	signed, unsigned, nan, inf := false, false, false, false
+	for i := 0; i < n; i++ {
+		x := vSymKind(string(rune('a'+i)), menu[verif.Choose(string(rune('a'+i))+".kind", len(menu))], name == "avg")
+		signed = signed || x.signed
+		unsigned = unsigned || x.unsigned
+		nan = nan || x.nan
+		inf = inf || x.inf
+		D.Consume(x.val)
+		if i < split {
+			A.Consume(x.val)
+		} else {
+			B.Consume(x.val)
+		}
+	}
+	C.ConsumeAsPartial(A.ResultAsPartial(zctx))
+	C.ConsumeAsPartial(B.ResultAsPartial(zctx))
+	rd, rc := D.Result(zctx), C.Result(zctx)
+	same := vSameValue(rd, rc)
+	switch {
+	case inf:
+		verif.Assert(same, "compose/inf")
+		verif.Reach("inf")
+	case nan:
+		verif.Assert(same, "compose/nan")
+		verif.Reach("nan")
+	case signed && unsigned:
+		verif.Assert(same, "compose/mixed-sign")
+		verif.Reach("mixed-sign")
+	default:
+		verif.Assert(same, "compose")
+	}
+	if !rd.IsNull() {
+		verif.Reach("non-null-result")
+	}
+	verif.Reach("end")
+}
+
+var (
+	vFuncsInts   = []string{"count", "sum", "min", "max", "and", "or"}
+	vFuncsFloats = []string{"min", "max"}
+	vFuncsAvg    = []string{"avg"}
+)
+
+// verif:desc C10-O1 partial results compose: for count,sum,min,max,and,or (real agg.Count/mathReducer/And/Or with coerce.Promote/ToInt/ToUint and anymath) the direct Consume x2 + Result equals, in type and value, A.Consume(x[:k]), B.Consume(x[k:]), C.ConsumeAsPartial(A.ResultAsPartial), C.ConsumeAsPartial(B.ResultAsPartial), C.Result for every split k in 0..2 (empty legs included).
+// verif:bounds 2 inputs, each independently one of {int64 v, uint64 v, null(int64), null(uint64), null, bool v} (sum, min, max) or {bool v, null(bool), null, int64 v} (and, or, count); payloads any 64-bit value
+// verif:outside float sum (float addition is not associative); int/float mixes; the ZNG encode/decode of the partial between the two stages (zcode round trip is C01); any, collect, union, dcount, fuse
+func VerifH_C10_O1_compose2_ints() {
+	vRunCompose(2, vFuncsInts, false)
+}
+
+// verif:desc C10-O1 partial results compose for min,max over float64 inputs (mathReducer + agg.Float64 + anymath Min/Max), splits k in 0..2
+// verif:bounds 2 inputs, each one of {float64 v (any bit pattern incl. NaN, +-Inf, +-0), null(float64), null, bool v}
+// verif:outside as compose2_ints
+func VerifH_C10_O1_compose2_floats() {
+	vRunCompose(2, vFuncsFloats, true)
+}
+
+// verif:desc C10-O1 partial results compose for avg (agg.Avg Consume/ResultAsPartial/ConsumeAsPartial/Result, partial record {sum:float64,count:uint64} through the real zed.Context and Value.Deref), splits k in 0..2
+// verif:bounds 2 inputs, each one of {int64 v in {0,1,-7,2^20}, uint64 v in {0,3,2^20}, null(int64), null(uint64), null, bool v}: payloads are concrete choices (z3 does not decide the float64 add/div queries of symbolic payloads within the time-out), so this obligation enumerates structure (which inputs count, null handling, the partial record, splits) rather than payloads
+// verif:outside avg over floats and over arbitrary integers (avg accumulates in float64: not associative beyond 2^53); the rest as compose2_ints
+func VerifH_C10_O1_compose2_avg() {
+	vRunCompose(2, vFuncsAvg, false)
+}
+
+// verif:desc C10-O1 as compose2_ints with 3 inputs and splits k in 0..3
+// verif:bounds as compose2_ints, 3 inputs
+// verif:tier thorough
+func VerifH_C10_O1_compose3_ints() {
+	vRunCompose(3, vFuncsInts, false)
+}
+
+// verif:desc C10-O1 as compose2_floats with 3 inputs and splits k in 0..3
+// verif:bounds as compose2_floats, 3 inputs
+// verif:tier thorough
+func VerifH_C10_O1_compose3_floats() {
+	vRunCompose(3, vFuncsFloats, true)
 }
